@@ -522,4 +522,461 @@ theorem nodup_of_nodup_map {α β : Type} (g : α → β) (l : List α) (h : (l.
     simp only [List.map_cons, List.nodup_cons] at h ⊢
     exact ⟨fun ha => h.1 (List.mem_map_of_mem ha), ih h.2⟩
 
+
+/-! ### byte-ness of the client's texts -/
+
+/-- every string of the struct is made of bytes -/
+def bytesStruct (st : Struct) : Prop := ∀ f ∈ st, ∀ v ∈ f.vals, bytesOK v = true
+
+theorem textOf_bytes (v : Val) (hb : bytesOK v = true) (hf : ∀ t, v = .float t → ∀ c ∈ t, c < 256) :
+    ∀ c ∈ textOf v, c < 256 := by
+  have hdig : ∀ n, ∀ c ∈ formatNat n, c < 256 := by
+    intro n c hc
+    have := (formatNat_spec n).2.1 c hc
+    simp [isDigit] at this; omega
+  cases v with
+  | str s => simpa [bytesOK, textOf] using hb
+  | int i =>
+    intro c hc
+    simp only [textOf, formatInt] at hc
+    split at hc
+    · simp only [List.mem_cons] at hc; rcases hc with rfl | hc; omega; exact hdig _ c hc
+    · exact hdig _ c hc
+  | uint n => exact hdig n
+  | bool bv => cases bv <;> (intro c hc; simp [textOf, formatBool, b] at hc; omega)
+  | float t => exact hf t rfl
+
+/-- the urlencoded wire form of the client's pairs parses back to the pairs -/
+theorem parseArgs_clientPairs (st : Struct)
+    (hspecs : specsOK (st.map (·.spec)) = true)
+    (hfb : ∀ f ∈ st, ∀ t, Val.float t ∈ f.vals → ∀ c ∈ t, c < 256)
+    (hbytes : bytesStruct st) :
+    parseArgs (renderArgs (clientPairs st)) = clientPairs st := by
+  unfold specsOK at hspecs
+  simp only [Bool.and_eq_true, List.all_eq_true, List.mem_map, forall_exists_index, and_imp,
+    forall_apply_eq_imp_iff₂] at hspecs
+  apply parseArgs_renderArgs'
+  · intro kv hkv
+    simp only [clientPairs, List.mem_flatMap, List.mem_map] at hkv
+    obtain ⟨f, hf, v, hv, rfl⟩ := hkv
+    exact ⟨aliasOK_bytes _ (hspecs.1 f hf).1, textOf_bytes v (hbytes f hf v hv) (fun t e => hfb f hf t (e ▸ hv))⟩
+  · intro kv hkv
+    simp only [clientPairs, List.mem_flatMap, List.mem_map] at hkv
+    obtain ⟨f, hf, v, hv, rfl⟩ := hkv
+    exact fun h => aliasOK_ne_nil _ (hspecs.1 f hf).1 h.1
+
+/-- the Cookie header of the client's pairs scans back to the pairs -/
+theorem parseCookies_clientPairs (st : Struct)
+    (hspecs : specsOK (st.map (·.spec)) = true)
+    (hwf : ∀ f ∈ st, ∀ v ∈ f.vals, cookieValueOK (textOf v) = true) :
+    parseCookies (renderCookies (clientPairs st)) = clientPairs st := by
+  unfold specsOK at hspecs
+  simp only [Bool.and_eq_true, List.all_eq_true, List.mem_map, forall_exists_index, and_imp,
+    forall_apply_eq_imp_iff₂] at hspecs
+  apply parseCookies_renderCookies'
+  · intro kv hkv
+    simp only [clientPairs, List.mem_flatMap, List.mem_map] at hkv
+    obtain ⟨f, hf, v, hv, rfl⟩ := hkv
+    exact aliasOK_cookieKey _ (hspecs.1 f hf).1
+  · intro kv hkv
+    simp only [clientPairs, List.mem_flatMap, List.mem_map] at hkv
+    obtain ⟨f, hf, v, hv, rfl⟩ := hkv
+    exact hwf f hf v hv
+
+/-! ### the core of every textual round trip -/
+
+theorem clientPairsN_id (st : Struct) : clientPairsN (fun k => k) st = clientPairs st := rfl
+
+theorem clientPairsN_eq_map (norm : Bytes → Bytes) (st : Struct) :
+    clientPairsN norm st = (clientPairs st).map fun kv => (norm kv.1, kv.2) := by
+  simp [clientPairsN, clientPairs, List.map_flatMap, List.map_map, Function.comp_def]
+
+/-- `lookupField` finds the one key that folds to the alias -/
+theorem lookupField_eq_find' (d : List (Bytes × List Bytes)) (A : List Bytes) (al k : Bytes)
+    (hn : (keysOf d).Nodup) (hsub : ∀ k ∈ keysOf d, k ∈ A) (hk : k ∈ A) (hlow : toLower k = toLower al)
+    (hinj : ∀ x ∈ A, ∀ y ∈ A, toLower x = toLower y → x = y)
+    (hdot : ∀ x ∈ A, x.contains 46 = false) :
+    lookupField d al = dataFind d k := by
+  unfold lookupField dataFind
+  have : d.filter (fun kv => !kv.1.contains 46 && toLower kv.1 == toLower al) = d.filter (·.1 = k) := by
+    apply List.filter_congr
+    intro e he
+    have hek : e.1 ∈ A := hsub e.1 (List.mem_map_of_mem he)
+    by_cases h : e.1 = k
+    · have := hdot k hk
+      rw [h, this, hlow]; simp
+    · have : ¬ toLower e.1 = toLower al := fun hh => h (hinj _ hek _ hk (hh.trans hlow.symm))
+      simp [h, this]
+  rw [this, filter_getLast_eq_find d k hn]
+
+theorem filter_clientPairsN (norm : Bytes → Bytes) (st : Struct)
+    (hn : (st.map fun f => norm f.spec.calias).Nodup) (f : Field) (hf : f ∈ st) :
+    ((clientPairsN norm st).filter (·.1 = norm f.spec.calias)).map (·.2) = f.vals.map textOf := by
+  induction st with
+  | nil => simp at hf
+  | cons g rest ih =>
+    simp only [List.map_cons, List.nodup_cons] at hn
+    have hsplit : clientPairsN norm (g :: rest)
+        = g.vals.map (fun v => (norm g.spec.calias, textOf v)) ++ clientPairsN norm rest := by
+      simp [clientPairsN]
+    rw [hsplit, List.filter_append, List.map_append]
+    rcases List.mem_cons.mp hf with rfl | hf'
+    · have h1 : (f.vals.map fun v => (norm f.spec.calias, textOf v)).filter (·.1 = norm f.spec.calias)
+                = f.vals.map fun v => (norm f.spec.calias, textOf v) := by
+        apply List.filter_eq_self.mpr; intro e he; simp at he; obtain ⟨v, _, rfl⟩ := he; simp
+      have h2 : (clientPairsN norm rest).filter (·.1 = norm f.spec.calias) = [] := by
+        apply List.filter_eq_nil_iff.mpr
+        intro e he hek
+        simp only [clientPairsN, List.mem_flatMap, List.mem_map] at he
+        obtain ⟨g', hg', v, _, rfl⟩ := he
+        simp at hek
+        exact hn.1 (by rw [← hek]; exact List.mem_map_of_mem (f := fun x => norm x.spec.calias) hg')
+      rw [h1, h2]; simp [List.map_map, Function.comp_def]
+    · have hne : norm g.spec.calias ≠ norm f.spec.calias := by
+        intro e; exact hn.1 (by rw [e]; exact List.mem_map_of_mem (f := fun x => norm x.spec.calias) hf')
+      have h1 : (g.vals.map fun v => (norm g.spec.calias, textOf v)).filter (·.1 = norm f.spec.calias) = [] := by
+        apply List.filter_eq_nil_iff.mpr; intro e he; simp at he; obtain ⟨v, _, rfl⟩ := he; simp [hne]
+      rw [h1]; simpa using ih hn.2 hf'
+
+/-- Binding the pairs `SetValWithStruct` produced gives the struct back, with no error — whatever
+    order `order` the transport delivers the *fields* in (a Go map iteration for multipart; the
+    declaration order for the others) and however it re-spells the names (`norm`: any rewriting that
+    changes ASCII case only and introduces no '.' or '[' — fasthttp's header-name canonicalisation is
+    one). -/
+theorem bind_clientPairs_gen (floatConv : Nat → Bytes → Option Bytes) (fz : Bytes) (st order : Struct)
+    (src : Source) (split : Bool) (norm : Bytes → Bytes)
+    (hperm : order.Perm st)
+    (hnorm : ∀ f ∈ st, toLower (norm f.spec.calias) = toLower f.spec.calias ∧
+        (norm f.spec.calias).contains 46 = false ∧ (norm f.spec.calias).contains 91 = false)
+    (hspecs : specsOK (st.map (·.spec)) = true)
+    (htyped : ∀ f ∈ st, f.wellTyped = true)
+    (hfloat : FloatOK floatConv st)
+    (hsplit : split = true → noCommas st = true) :
+    bindPairs floatConv fz (st.map (·.spec)) src split (clientPairsN norm order) = { value := st, err := false } := by
+  have hmem : ∀ f, f ∈ order ↔ f ∈ st := fun f => hperm.mem_iff
+  -- facts about the tags
+  unfold specsOK at hspecs
+  simp only [Bool.and_eq_true, List.all_eq_true, List.mem_map, forall_exists_index, and_imp,
+    forall_apply_eq_imp_iff₂, beq_iff_eq] at hspecs
+  obtain ⟨hal, hnd⟩ := hspecs
+  rw [List.map_map, nodupB_iff] at hnd
+  have hcs : ∀ f ∈ st, f.spec.salias = f.spec.calias := fun f hf => (hal f hf).2
+  let A := st.map (fun f => norm f.spec.calias)
+  have hAeq : st.map ((fun f : FieldSpec => toLower f.salias) ∘ fun f => f.spec) = A.map toLower := by
+    simp only [A, List.map_map]
+    apply List.map_congr_left
+    intro f hf; simp [hcs f hf, (hnorm f hf).1]
+  rw [hAeq] at hnd
+  have hAnd : A.Nodup := nodup_of_nodup_map toLower A hnd
+  have hAnd' : (order.map (fun f => norm f.spec.calias)).Nodup :=
+    ((hperm.map (fun f => norm f.spec.calias)).nodup_iff).mpr hAnd
+  have hinj : ∀ x ∈ A, ∀ y ∈ A, toLower x = toLower y → x = y := inj_of_nodup_map toLower A hnd
+  have hdot : ∀ x ∈ A, x.contains 46 = false := by
+    intro x hx; simp only [A, List.mem_map] at hx; obtain ⟨f, hf, rfl⟩ := hx
+    exact (hnorm f hf).2.1
+  -- the binder's loop is `groupPairs`
+  have hkeys : ∀ kv ∈ clientPairsN norm order, kv.1 ∈ A := by
+    intro kv hkv
+    simp only [clientPairsN, List.mem_flatMap, List.mem_map] at hkv
+    obtain ⟨f, hf, v, _, rfl⟩ := hkv
+    exact List.mem_map_of_mem (f := fun f : Field => norm f.spec.calias) ((hmem f).mp hf)
+  have hcollect : collect (equalFieldType (st.map (·.spec))) split src.brackets (clientPairsN norm order) []
+      = some (groupPairs (clientPairsN norm order) []) := by
+    apply collect_plain
+    · intro kv hkv
+      have := hkeys kv hkv
+      simp only [A, List.mem_map] at this; obtain ⟨f, hf, hfe⟩ := this
+      rw [← hfe]; exact (hnorm f hf).2.2
+    · cases split with
+      | false => exact Or.inl rfl
+      | true =>
+        right
+        have hnc := hsplit rfl
+        unfold noCommas at hnc
+        simp only [List.all_eq_true, Bool.not_eq_true'] at hnc
+        intro kv hkv
+        simp only [clientPairsN, List.mem_flatMap, List.mem_map] at hkv
+        obtain ⟨f, hf, v, hv, rfl⟩ := hkv
+        have hf := (hmem f).mp hf
+        exact textOf_noComma v (hnc f hf v hv) (fun t e => ((hfloat f hf t (e ▸ hv)).2.1))
+  let data := groupPairs (clientPairsN norm order) []
+  have hdn : (keysOf data).Nodup := nodup_groupPairs _ [] (by simp [keysOf])
+  have hdsub : ∀ k ∈ keysOf data, k ∈ A := by
+    intro k hk
+    rcases keys_groupPairs (clientPairsN norm order) [] k hk with h | h
+    · simp [keysOf] at h
+    · simp only [List.mem_map] at h; obtain ⟨kv, hkv, rfl⟩ := h; exact hkeys kv hkv
+  -- every field decodes to its own values
+  have hfield : ∀ f ∈ st, decodeField floatConv fz data f.spec = (f.vals, false) := by
+    intro f hf
+    have hlook : lookupField data f.spec.salias
+        = match f.vals.map textOf with
+          | [] => none
+          | vs => some vs := by
+      rw [hcs f hf, lookupField_eq_find' data A _ (norm f.spec.calias) hdn hdsub
+            (List.mem_map_of_mem (f := fun f : Field => norm f.spec.calias) hf) (hnorm f hf).1 hinj hdot,
+          dataFind_groupPairs, filter_clientPairsN norm order hAnd' f ((hmem f).mpr hf)]
+      cases f.vals.map textOf <;> simp [dataFind]
+    have hty := htyped f hf
+    unfold Field.wellTyped at hty
+    simp only [Bool.and_eq_true, Bool.or_eq_true, beq_iff_eq, List.all_eq_true] at hty
+    obtain ⟨hshape, hfits⟩ := hty
+    have hfl : ∀ t, Val.float t ∈ f.vals → t ≠ [] ∧ ∀ bits, floatConv bits t = some t :=
+      fun t ht => ⟨(hfloat f hf t ht).1, (hfloat f hf t ht).2.2⟩
+    unfold decodeField
+    rw [hlook]
+    cases hvals : f.vals with
+    | nil =>
+      rcases hshape with hs | hs
+      · simp [hs]
+      · rw [hvals] at hs; simp at hs
+    | cons v rest =>
+      simp only [List.map_cons]
+      by_cases hs : f.spec.isSlice = true
+      · have := decodeSlice_texts floatConv fz f.spec.kind (v :: rest)
+          (fun w hw => hfits w (hvals ▸ hw)) (fun t ht => hfl t (hvals ▸ ht))
+        simp only [List.map_cons] at this
+        simp [hs, this]
+      · have hlen : f.vals.length = 1 := by rcases hshape with h | h; exact absurd h hs; exact h
+        rw [hvals] at hlen
+        have hrest : rest = [] := by cases rest <;> simp_all
+        subst hrest
+        have hd := decode_text floatConv fz f.spec.kind v (hfits v (by simp [hvals]))
+          (fun t e => hfl t (by simp [hvals, e]))
+        simp only [hs, Bool.false_eq_true, if_false, List.map_nil, decodeScalar, List.getLast?_singleton]
+        rw [hd]
+  -- assemble
+  unfold bindPairs
+  rw [hcollect]
+  simp only [decodeFields, List.map_map]
+  congr 1
+  · conv => rhs; rw [← List.map_id st]
+    apply List.map_congr_left
+    intro f hf
+    have := hfield f hf
+    simp only [data] at this
+    simp [Function.comp_def, this]
+  · apply Bool.eq_false_iff.mpr
+    intro h
+    simp only [List.any_eq_true, List.mem_map, Function.comp_apply] at h
+    obtain ⟨r, ⟨f, hf, rfl⟩, hr⟩ := h
+    have := hfield f hf
+    simp only [data] at this
+    simp [this] at hr
+
+
+
+/-- … in particular with the names as written (`norm = id`). -/
+theorem bind_clientPairs_perm (floatConv : Nat → Bytes → Option Bytes) (fz : Bytes) (st order : Struct)
+    (src : Source) (split : Bool)
+    (hperm : order.Perm st)
+    (hspecs : specsOK (st.map (·.spec)) = true)
+    (htyped : ∀ f ∈ st, f.wellTyped = true)
+    (hfloat : FloatOK floatConv st)
+    (hsplit : split = true → noCommas st = true) :
+    bindPairs floatConv fz (st.map (·.spec)) src split (clientPairs order) = { value := st, err := false } := by
+  have hspecs' := hspecs
+  unfold specsOK at hspecs'
+  simp only [Bool.and_eq_true, List.all_eq_true, List.mem_map, forall_exists_index, and_imp,
+    forall_apply_eq_imp_iff₂] at hspecs'
+  rw [← clientPairsN_id]
+  exact bind_clientPairs_gen floatConv fz st order src split (fun k => k) hperm
+    (fun f hf => ⟨rfl, aliasOK_noDot _ (hspecs'.1 f hf).1, aliasOK_noBracket _ (hspecs'.1 f hf).1⟩)
+    hspecs htyped hfloat hsplit
+
+
+/-! ### fasthttp's header-name canonicalisation changes ASCII case only -/
+
+theorem lowerByte_upperByte (c : Nat) : lowerByte (upperByte c) = lowerByte c := by
+  unfold lowerByte upperByte isUpper isLower
+  by_cases h : (97 ≤ c && c ≤ 122) = true
+  · simp only [h, if_true]
+    simp at h
+    have h1 : (65 ≤ c - 32 && c - 32 ≤ 90) = true := by simp; omega
+    have h2 : (65 ≤ c && c ≤ 90) = false := by simp; omega
+    simp only [h1, h2, if_true, Bool.false_eq_true, if_false]; omega
+  · simp [h]
+
+theorem lowerByte_lowerByte (c : Nat) : lowerByte (lowerByte c) = lowerByte c := by
+  unfold lowerByte isUpper
+  by_cases h : 65 ≤ c ∧ c ≤ 90
+  · have h1 : (decide (65 ≤ c) && decide (c ≤ 90)) = true := by simp [h]
+    have h2 : (decide (65 ≤ c + 32) && decide (c + 32 ≤ 90)) = false := by simp; omega
+    simp only [h1, if_true, h2]
+    simp
+  · have h1 : (decide (65 ≤ c) && decide (c ≤ 90)) = false := by simp; omega
+    simp [h1]
+
+theorem toLower_normGo (s : Bytes) (up : Bool) : toLower (normalizeHeaderKey.go s up) = toLower s := by
+  induction s generalizing up with
+  | nil => simp [normalizeHeaderKey.go, toLower]
+  | cons x xs ih =>
+    unfold normalizeHeaderKey.go
+    by_cases hu : up = true
+    · simp only [hu, if_true, toLower, List.map_cons, lowerByte_upperByte] at ih ⊢
+      rw [ih false]
+    · by_cases h45 : (x == 45) = true
+      · simp only [hu, Bool.false_eq_true, if_false, h45, if_true, toLower, List.map_cons] at ih ⊢
+        rw [ih true]
+      · simp only [hu, Bool.false_eq_true, if_false, h45, toLower, List.map_cons, lowerByte_lowerByte] at ih ⊢
+        rw [ih false]
+
+theorem toLower_normalizeHeaderKey (s : Bytes) : toLower (normalizeHeaderKey s) = toLower s := by
+  cases s with
+  | nil => rfl
+  | cons c cs =>
+    have := toLower_normGo cs false
+    simp only [normalizeHeaderKey, toLower, List.map_cons, lowerByte_upperByte] at this ⊢
+    rw [this]
+
+/-- a byte of an alias stays a letter, digit or '-' under either case map -/
+theorem aliasByte_case (c : Nat) (h : (isAlpha c || isDigit c || c == 45) = true) :
+    (upperByte c ≠ 46 ∧ upperByte c ≠ 91) ∧ (lowerByte c ≠ 46 ∧ lowerByte c ≠ 91) ∧ (c ≠ 46 ∧ c ≠ 91) := by
+  unfold upperByte lowerByte
+  simp [isAlpha, isUpper, isLower, isDigit] at h ⊢
+  refine ⟨⟨?_, ?_⟩, ⟨?_, ?_⟩, ?_, ?_⟩ <;> (try split) <;> omega
+
+theorem normGo_clean (s : Bytes) (up : Bool) (h : ∀ c ∈ s, (isAlpha c || isDigit c || c == 45) = true) :
+    ∀ x ∈ normalizeHeaderKey.go s up, x ≠ 46 ∧ x ≠ 91 := by
+  induction s generalizing up with
+  | nil => intro x hx; simp [normalizeHeaderKey.go] at hx
+  | cons c cs ih =>
+    intro x hx
+    have hc := aliasByte_case c (h c (by simp))
+    have ih' := fun up => ih up (fun d hd => h d (by simp [hd]))
+    unfold normalizeHeaderKey.go at hx
+    by_cases hu : up = true
+    · simp only [hu, if_true, List.mem_cons] at hx
+      rcases hx with rfl | hx
+      · exact hc.1
+      · exact ih' false x hx
+    · by_cases h45 : (c == 45) = true
+      · simp only [hu, Bool.false_eq_true, if_false, h45, if_true, List.mem_cons] at hx
+        rcases hx with rfl | hx
+        · exact hc.2.2
+        · exact ih' true x hx
+      · simp only [hu, Bool.false_eq_true, if_false, h45, List.mem_cons] at hx
+        rcases hx with rfl | hx
+        · exact hc.2.1
+        · exact ih' false x hx
+
+/-- fasthttp's canonical spelling of an alias folds to the alias and has neither '.' nor '[' -/
+theorem normalizeHeaderKey_ok (a : Bytes) (h : aliasOK a = true) :
+    toLower (normalizeHeaderKey a) = toLower a ∧ (normalizeHeaderKey a).contains 46 = false ∧
+    (normalizeHeaderKey a).contains 91 = false := by
+  refine ⟨toLower_normalizeHeaderKey a, ?_⟩
+  unfold aliasOK at h
+  simp only [Bool.and_eq_true, List.all_eq_true] at h
+  have hall : ∀ x ∈ normalizeHeaderKey a, x ≠ 46 ∧ x ≠ 91 := by
+    cases a with
+    | nil => intro x hx; simp [normalizeHeaderKey] at hx
+    | cons c cs =>
+      intro x hx
+      simp only [normalizeHeaderKey, List.mem_cons] at hx
+      rcases hx with rfl | hx
+      · exact (aliasByte_case c (h.2 c (by simp))).1
+      · exact normGo_clean cs false (fun d hd => h.2 d (by simp [hd])) x hx
+  constructor
+  · apply Bool.eq_false_iff.mpr; intro hc; simp at hc; exact (hall 46 hc).1 rfl
+  · apply Bool.eq_false_iff.mpr; intro hc; simp at hc; exact (hall 91 hc).2 rfl
+
+/-! ### the cookie map keeps the last element of a slice -/
+
+/-- when no slice has two or more elements the cookie map holds exactly the client pairs -/
+theorem cookiePairs_eq_clientPairs (st : Struct) (h : multiValuedSlice st = false) :
+    cookiePairs st = clientPairs st := by
+  unfold multiValuedSlice at h
+  induction st with
+  | nil => rfl
+  | cons f rest ih =>
+    simp only [List.any_cons, Bool.or_eq_false_iff, decide_eq_false_iff_not] at h
+    have ih' := ih h.2
+    simp only [cookiePairs, clientPairs, List.filterMap_cons, List.flatMap_cons] at ih' ⊢
+    rcases hv : f.vals with _ | ⟨v, _ | ⟨w, ws⟩⟩
+    · simpa using ih'
+    · simp [ih']
+    · rw [hv] at h; simp at h
+
+theorem cookiePairs_lastOnly (st : Struct) : cookiePairs st = clientPairs (lastOnly st) := by
+  induction st with
+  | nil => rfl
+  | cons f rest ih =>
+    simp only [cookiePairs, clientPairs, lastOnly, List.filterMap_cons, List.flatMap_cons, List.map_cons] at ih ⊢
+    rcases hv : f.vals.getLast? with _ | w
+    · have : f.vals = [] := by simpa using hv
+      simp [Field.lastOnly, this, ih]
+    · simp [Field.lastOnly, hv, ih]
+
+theorem lastOnly_specs (st : Struct) : (lastOnly st).map (·.spec) = st.map (·.spec) := by
+  simp [lastOnly, Field.lastOnly, List.map_map, Function.comp_def]
+
+theorem lastOnly_id (st : Struct) (h : multiValuedSlice st = false) : lastOnly st = st := by
+  unfold multiValuedSlice at h
+  induction st with
+  | nil => rfl
+  | cons f rest ih =>
+    simp only [List.any_cons, Bool.or_eq_false_iff, decide_eq_false_iff_not] at h
+    simp only [lastOnly, List.map_cons] at ih ⊢
+    rw [ih h.2]
+    congr 1
+    rcases hv : f.vals with _ | ⟨v, _ | ⟨w, ws⟩⟩
+    · cases f; simp_all [Field.lastOnly]
+    · cases f; simp_all [Field.lastOnly]
+    · rw [hv] at h; simp at h
+
+/-! ### small list facts used by the content-type theorems -/
+
+theorem takeWhile_append_stop (p : Nat → Bool) (a : Bytes) (x : Nat) (r : Bytes)
+    (ha : ∀ c ∈ a, p c = true) (hx : p x = false) : (a ++ x :: r).takeWhile p = a := by
+  induction a with
+  | nil => simp [List.takeWhile, hx]
+  | cons c cs ih =>
+    have hc := ha c (by simp)
+    have := ih (fun d hd => ha d (by simp [hd]))
+    simp only [List.cons_append, List.takeWhile, hc, this]
+
+theorem takeWhile_all (p : Nat → Bool) (a : Bytes) (ha : ∀ c ∈ a, p c = true) : a.takeWhile p = a := by
+  induction a with
+  | nil => rfl
+  | cons c cs ih =>
+    have hc := ha c (by simp)
+    have := ih (fun d hd => ha d (by simp [hd]))
+    simp only [List.takeWhile, hc, this]
+
+theorem indexByte_append_ge (a r : Bytes) (c p : Nat) (ha : ∀ x ∈ a, x ≠ c)
+    (h : indexByte (a ++ r) c = some p) : a.length ≤ p := by
+  induction a generalizing p with
+  | nil => simp
+  | cons x xs ih =>
+    have hx : (x == c) = false := by simpa using ha x (by simp)
+    simp only [List.cons_append, indexByte, hx, Bool.false_eq_true, if_false, Option.map_eq_some_iff] at h
+    obtain ⟨q, hq, rfl⟩ := h
+    have := ih q (fun y hy => ha y (by simp [hy])) hq
+    simp; omega
+
+theorem indexByte_none (s : Bytes) (c : Nat) (h : ∀ x ∈ s, x ≠ c) : indexByte s c = none := by
+  induction s with
+  | nil => rfl
+  | cons x xs ih =>
+    have : (x == c) = false := by simpa using h x (by simp)
+    simp [indexByte, this, ih (fun y hy => h y (by simp [hy]))]
+
+theorem indexByte_append_first (a : Bytes) (c : Nat) (r : Bytes) (h : ∀ x ∈ a, x ≠ c) :
+    indexByte (a ++ c :: r) c = some a.length := by
+  induction a with
+  | nil => simp [indexByte]
+  | cons x xs ih =>
+    have : (x == c) = false := by simpa using h x (by simp)
+    simp [indexByte, this, ih (fun y hy => h y (by simp [hy]))]
+
+theorem indexByte_lt (s : Bytes) (c i : Nat) (h : indexByte s c = some i) : i < s.length := by
+  induction s generalizing i with
+  | nil => simp [indexByte] at h
+  | cons x xs ih =>
+    by_cases hx : (x == c) = true
+    · simp [indexByte, hx] at h; subst h; simp
+    · simp only [indexByte, hx, Bool.false_eq_true, if_false, Option.map_eq_some_iff] at h
+      obtain ⟨j, hj, rfl⟩ := h
+      have := ih j hj; simp; omega
+
 end C11
